@@ -270,7 +270,7 @@ func ruleC08StripBoth(c *Ctx) {
 			check(s.Call)
 		}
 	}
-	core.EachInstr(m.E, func(i ssa.Instruction) {
+	c.eachFamOwn(m.E, func(i ssa.Instruction) {
 		if call, ok := i.(*ssa.Call); ok {
 			callee := call.Call.StaticCallee()
 			if callee != nil && (callee == c.roles["role:type-classifier"] || callee == c.roles["role:number-extractor"] || callee == c.roles["role:equality"]) {
@@ -488,7 +488,7 @@ func ruleC08KindGroups(c *Ctx) {
 	kf := m.instanceKindFlow(c, m.E)
 	isSame := func(v ssa.Value) bool { return m.instLoc(c, v, map[ssa.Value]bool{}) == "same" }
 	n := 0
-	core.EachInstr(m.E, func(i ssa.Instruction) {
+	c.eachFamOwn(m.E, func(i ssa.Instruction) {
 		call, ok := i.(*ssa.Call)
 		if !ok || len(call.Call.Args) == 0 || !isSame(call.Call.Args[0]) {
 			return
@@ -538,7 +538,7 @@ func ruleC08KindGroups(c *Ctx) {
 		if !uses || fn.Parent() != m.E {
 			continue
 		}
-		core.EachInstr(m.E, func(i ssa.Instruction) {
+		c.eachFamOwn(m.E, func(i ssa.Instruction) {
 			if mc, ok := i.(*ssa.MakeClosure); ok && mc.Fn == fn {
 				n++
 				ks := kf.At(mc)
@@ -550,7 +550,7 @@ func ruleC08KindGroups(c *Ctx) {
 	// the object keywords run only for maps whose key kind is String: a test of instance.Type().Key().Kind() that
 	// returns an error dominates every keyed access
 	var keyKindTest *ssa.If
-	core.EachInstr(m.E, func(i ssa.Instruction) {
+	c.eachFamOwn(m.E, func(i ssa.Instruction) {
 		ifi, ok := i.(*ssa.If)
 		if !ok {
 			return
@@ -585,7 +585,7 @@ func ruleC08KindGroups(c *Ctx) {
 		c.R.Bad(rule, "object-group:string-keys-only", c.P.Pos(m.E.Pos()), "the evaluator does not refuse maps whose key kind is not string before the object keywords: the keyed access converts a string to the map's key type and reflect panics for, e.g., map[int]any")
 	} else {
 		okDom := true
-		core.EachInstr(m.E, func(i ssa.Instruction) {
+		c.eachFamOwn(m.E, func(i ssa.Instruction) {
 			if call, ok := i.(*ssa.Call); ok {
 				callee := call.Call.StaticCallee()
 				if callee != nil && c.P.InPkg(callee) && (core.FuncName(callee) == "property" || core.FuncName(callee) == "properties") && len(call.Call.Args) > 0 && isSame(call.Call.Args[0]) {
@@ -599,7 +599,7 @@ func ruleC08KindGroups(c *Ctx) {
 	}
 	// the string keywords are applied to every value of kind String: the counted string is instance.String(),
 	// not the result of a type assertion (which excludes defined string types)
-	core.EachInstr(m.E, func(i ssa.Instruction) {
+	c.eachFamOwn(m.E, func(i ssa.Instruction) {
 		call, ok := i.(*ssa.Call)
 		if !ok || !strings.HasPrefix(core.CalleeKey(&call.Call), "unicode/utf8.RuneCount") {
 			return
@@ -1028,7 +1028,7 @@ func ruleC12DecidedByEqual(c *Ctx) {
 		c.R.OK(rule, kw+":uses-equality", c.pos(call), "decided by the equality function on (keyword value, instance)")
 		// the failure exit of the keyword: error returns control dependent on the keyword's presence test must depend on the equality result
 		okDep := false
-		core.EachInstr(m.E, func(i ssa.Instruction) {
+		c.eachFamOwn(m.E, func(i ssa.Instruction) {
 			ifi, ok := i.(*ssa.If)
 			if !ok {
 				return
@@ -1044,7 +1044,7 @@ func ruleC12DecidedByEqual(c *Ctx) {
 		c.R.Check(okDep, rule, kw+":failure-depends-on-equality", c.pos(call), "the keyword fails exactly on the equality outcome", "no failure exit of "+kw+" depends on the result of the equality function")
 		// no other comparison decides a match inside the keyword's region
 		var region *ssa.BasicBlock
-		core.EachInstr(m.E, func(i ssa.Instruction) {
+		c.eachFamOwn(m.E, func(i ssa.Instruction) {
 			if ifi, ok := i.(*ssa.If); ok {
 				if x, k, equal, isEq := eqConst(guardAtom{Cond: ifi.Cond, Pol: true}); isEq && k.IsNil() && !equal && c.mentionsField(x, kw, 3) {
 					region = ifi.Block().Succs[0]
@@ -1052,7 +1052,7 @@ func ruleC12DecidedByEqual(c *Ctx) {
 			}
 		})
 		if region != nil {
-			core.EachInstr(m.E, func(i ssa.Instruction) {
+			c.eachFamOwn(m.E, func(i ssa.Instruction) {
 				bo, ok := i.(*ssa.BinOp)
 				if !ok || (bo.Op != token.EQL && bo.Op != token.NEQ) || !region.Dominates(bo.Block()) {
 					return
@@ -1067,7 +1067,7 @@ func ruleC12DecidedByEqual(c *Ctx) {
 	}
 	// uniqueItems
 	var region *ssa.If
-	core.EachInstr(m.E, func(i ssa.Instruction) {
+	c.eachFamOwn(m.E, func(i ssa.Instruction) {
 		if ifi, ok := i.(*ssa.If); ok && c.isDirectFieldLoad(ifi.Cond, "Schema.UniqueItems") {
 			region = ifi
 		}
